@@ -113,15 +113,66 @@ def restrict(ctx, obs, q, rule='RESTRICT'):
         ok = args[:2] == ['pattern_descriptor', 'pattern_idx'] or set(args) == {'by=pattern_descriptor', 'value=pattern_idx'}
         obs.check(ok, rule, q, 'subsample_pattern receives (pattern_descriptor, pattern_idx)',
                   f'`{norm(c)}`: arguments {args}', '', where(prog, f, c))
-        # guarded by "both given"
-        guard = None
-        for n in ast.walk(f.node):
-            if isinstance(n, ast.If) and any(x is c for x in ast.walk(ast.Module(body=n.body, type_ignores=[]))):
-                guard = n
-        names = {x.id for x in ast.walk(guard.test) if isinstance(x, ast.Name)} if guard is not None else set()
-        obs.check({'pattern_idx', 'pattern_descriptor'} <= names, rule, q,
-                  'the restriction applies whenever pattern_idx and pattern_descriptor are given',
-                  'subsample_pattern is not guarded by a test of both pattern_idx and pattern_descriptor', '', where(prog, f, c))
+        # the call runs exactly when both are given: the condition under which it executes (conjunction of the enclosing `if`
+        # tests, negated for else-arms) is evaluated for the four is-None assignments
+        path = []          # [(test, polarity)]
+
+        def find(stmts, acc):
+            for st in stmts:
+                if any(x is c for x in ast.walk(st)):
+                    if isinstance(st, ast.If):
+                        if any(x is c for b_ in st.body for x in ast.walk(b_)):
+                            return find(st.body, acc + [(st.test, True)])
+                        if any(x is c for b_ in st.orelse for x in ast.walk(b_)):
+                            return find(st.orelse, acc + [(st.test, False)])
+                        return acc
+                    for fld in ('body', 'orelse', 'finalbody'):
+                        blk = getattr(st, fld, None)
+                        if isinstance(blk, list) and any(x is c for b_ in blk for x in ast.walk(b_)):
+                            return find(blk, acc)
+                    return acc
+            return acc
+        path = find(f.node.body, [])
+        PARS = ('pattern_idx', 'pattern_descriptor')
+
+        def ev(e, env):
+            """three-valued: True / False / None (unknown)"""
+            if isinstance(e, ast.BoolOp):
+                vals = [ev(v, env) for v in e.values]
+                if isinstance(e.op, ast.And):
+                    return False if False in vals else (None if None in vals else True)
+                return True if True in vals else (None if None in vals else False)
+            if isinstance(e, ast.UnaryOp) and isinstance(e.op, ast.Not):
+                v = ev(e.operand, env)
+                return None if v is None else not v
+            if isinstance(e, ast.Compare) and len(e.ops) == 1 and isinstance(e.left, ast.Name) and e.left.id in PARS \
+                    and isinstance(e.comparators[0], ast.Constant) and e.comparators[0].value is None:
+                is_none = env[e.left.id]
+                if isinstance(e.ops[0], (ast.Is, ast.Eq)):
+                    return is_none
+                if isinstance(e.ops[0], (ast.IsNot, ast.NotEq)):
+                    return not is_none
+            if isinstance(e, ast.Name) and e.id in PARS:
+                return None if not env[e.id] else False      # truthiness of a given value is unknown, None is falsy
+            return None
+        con = 'the restriction applies whenever pattern_idx and pattern_descriptor are given'
+        verdicts = []
+        for a_none in (False, True):
+            for b_none in (False, True):
+                env = {'pattern_idx': a_none, 'pattern_descriptor': b_none}
+                vals = [(ev(t, env) if pol else (None if ev(t, env) is None else not ev(t, env))) for t, pol in path]
+                runs = False if False in vals else (None if None in vals else True)
+                verdicts.append(((a_none, b_none), runs))
+        want = {(False, False): True, (False, True): False, (True, False): False, (True, True): False}
+        wrong = [(k, v) for k, v in verdicts if v is not None and v != want[k]]
+        if wrong:
+            k, v = wrong[0]
+            obs.bad(rule, q, con, f'with pattern_idx {"None" if k[0] else "given"} and pattern_descriptor {"None" if k[1] else "given"} the '
+                    f'restriction {"runs" if v else "is skipped"}', where(prog, f, c))
+        elif all(v is not None for _, v in verdicts):
+            obs.ok(rule, q, con, '', where(prog, f, c))
+        else:
+            obs.unk(rule, q, con, 'guard of the restriction not fully evaluated', where(prog, f, c))
     # the restricted prediction is what reaches the criterion
     r = ctx.dep.result(q)
     inl = Inliner(r, None, ())
